@@ -4,7 +4,7 @@ from typing import Any, cast
 from guppylang_internals.definition.ty import TypeDef
 from guppylang_internals.tys.arg import TypeArg
 from guppylang_internals.tys.common import Visitor
-from guppylang_internals.tys.ty import OpaqueType, Type
+from guppylang_internals.tys.ty import OpaqueType, StructType, Type
 
 
 @functools.cache
@@ -43,6 +43,13 @@ class QubitFinder(Visitor):
     def _visit_OpaqueType(self, ty: OpaqueType) -> bool:
         if is_qubit_ty(ty):
             raise self.FoundFlag
+        return False
+
+    @visit.register
+    def _visit_StructType(self, ty: StructType) -> bool:
+        # Qubits can also hide in the fields of a struct (not only in its type args)
+        for field in ty.fields:
+            field.ty.visit(self)
         return False
 
     @visit.register
